@@ -74,8 +74,14 @@ pub fn exec(case: &Value) -> Value {
             let rq = ia(&case["rq"]);
             let (fw, fh) = (gu(case, "fw"), gu(case, "fh"));
             let f = gi(case, "fn") as f32 / gi(case, "fd") as f32;
+            // the same rectangle, optionally written as pairs of explicit bounds with an EXCLUDED start
+            use std::ops::Bound::{Excluded, Included};
+            let (x0, y0, x1, y1) = (rq[0] as u32, rq[1] as u32, rq[2] as u32, rq[3] as u32);
+            let bx = gi(case, "bx") == 1 && x0 >= 1 && y0 >= 1;
+            let hb = if bx { (Excluded(x0 - 1), Excluded(x1)) } else { (Included(x0), Excluded(x1)) };
+            let vb = if bx { (Excluded(y0 - 1), Included(y1 - 1)) } else { (Included(y0), Excluded(y1)) };
             let cam = Camera::new((fw, fh))
-                .viewport((rq[0] as u32..rq[2] as u32, rq[1] as u32..rq[3] as u32))
+                .viewport((hb, vb))
                 .perspective(f, 1.0..100.0)
                 .mode(Mat4x4::<WorldToView>::identity());
             let vp = cam.viewport;
@@ -255,7 +261,7 @@ pub fn gen(args: &Args, out: &mut dyn Write) {
         let (fnn, fd) = *rng.pick(&fs);
         let z = rng.range(2, 40);
         emit(out, json!({"op": "cam", "fw": fw, "fh": fh, "rq": [x0, y0, x1, y1], "fn": fnn, "fd": fd,
-                         "p": [rng.range(-z, z), rng.range(-z, z), z]}));
+                         "p": [rng.range(-z, z), rng.range(-z, z), z], "bx": rng.below(3) / 2}));
     }
     // orthographic cameras, builder calls in both orders
     for i in 0..(if thorough { 6_000 } else { 600 }) {
@@ -280,6 +286,15 @@ pub fn gen(args: &Args, out: &mut dyn Write) {
             let far: Vec<i64> = (0..3).map(|_| rng.range(-9, 9)).collect();
             emit(out, json!({"op": "fp", "pos": far, "t": [d[0] * sc, d[1] * sc, d[2] * sc], "d2": d[3] * sc * sc,
                              "d": ((d[3] * sc * sc) as f64).sqrt().round() as i64 * 4096, "psc": 9, "tsc": 9, "pm": 9 * 512}));
+        }
+    }
+    // look_at on targets almost straight above / below the camera (not Pythagorean: judged on the axis only)
+    for kq in [50i64, 200, 1000, 3000] {
+        for (dx, dz) in [(1i64, 0i64), (0, 1), (-1, 1), (1, -1)] {
+            for sg in [1i64, -1] {
+                let pos: Vec<i64> = (0..3).map(|_| rng.range(-9, 9)).collect();
+                emit(out, json!({"op": "fp", "pos": pos, "t": [dx, sg * kq, dz], "d2": 0, "d": kq * 4096, "psc": 0, "tsc": 0, "pm": 9, "steep": 1}));
+            }
         }
     }
     let azs: [(i64, i64, i64); 8] = [(3, 4, 5), (-4, 3, 5), (5, -12, 13), (-8, -15, 17), (1, 0, 1), (0, 1, 1), (-1, 0, 1), (0, -1, 1)];
